@@ -98,7 +98,14 @@ def _aread(name, idx, env, arrays):
 
 
 def _show(e):
-    from .formula import show
+    """canonical text of an index expression (constant indices are folded so that a[3-1] and a[2] coincide)"""
+    from .formula import show, Canon
+    try:
+        r = Canon().ratio(e)
+        if r.is_const() and r.cval().denominator == 1:
+            return str(int(r.cval()))
+    except Exception:
+        pass
     return show(e)
 
 
